@@ -37,7 +37,7 @@ def main():
             'level_claimed': {
                 'category': 'other',
                 'text': c['claim'],
-                'design_ref': c.get('design_ref', 'DESIGN.md section 4, ' + pid),
+                'design_ref': c.get('design_ref', 'DESIGN.md sections 4 and 11, ' + pid),
             },
             'level_note': c['note'],
             'technique': c['technique'],
